@@ -10,6 +10,7 @@ package main
 import (
 	"bytes"
 	"fmt"
+	"math"
 	"strings"
 
 	logger "github.com/ElrondNetwork/elrond-go-logger"
@@ -158,7 +159,7 @@ func diffKind(got, want [][]byte) string {
 func main() {
 	logger.SetLogLevel("*:NONE")
 	r := vk.Start("C32")
-	r.Rule("case = (limit, list): limit from {1..16, 17..300, 301..4096}; 0..40 elements whose lengths are drawn relative to the limit (0, 1, just over half, single-batch size limit-1 / limit, raw limit, above, random, small, third) under four mixes; every element has distinct random content. All three packers run on every case. Non-trivial = at least one packer produced >= 2 chunks; shape = limit band + element class string + chunk-count vector.")
+	r.Rule("case = (limit, list): limit from {1..16, 17..300, 301..4096}; 0..40 elements whose lengths are drawn relative to the limit (0, 1, just over half, single-batch size limit-1 / limit, raw limit, above, random, small, third) under four mixes; every element has distinct random content. All three packers run on every case; one case in six re-runs them with an extreme limit (2^31-1 .. MaxInt64, including MaxInt64-n+{0,1,2}) under the round-trip oracle. Non-trivial = at least one packer produced >= 2 chunks; shape = limit band + element class string + chunk-count vector.")
 	r.Assume("the real GogoProtoMarshalizer/batch.Batch codec is used to unpack (its round trip is C45's subject)",
 		"inputs are non-nil lists and limits >= 1 (the packers reject the rest with an error)",
 		"SimpleDataPacker bound is on the payload sum (it is documented as imprecise), SizeDataPacker bound on the marshalled chunk")
@@ -324,6 +325,51 @@ func main() {
 				maxChunks = len(parts)
 			}
 			chunkVec = append(chunkVec, fmt.Sprint(len(parts)))
+		}
+
+		// ---- extreme limits ("no limit" style values): the round trip must still be lossless
+		if rng.Chance(1, 6) {
+			extremes := []int{math.MaxInt32, math.MaxInt32 + 1, 1 << 62, math.MaxInt64 / 2, math.MaxInt64 - count, math.MaxInt64 - 1, math.MaxInt64}
+			for d := 1; d <= 2 && d <= count; d++ {
+				extremes = append(extremes, math.MaxInt64-count+d)
+			}
+			lim := extremes[rng.Intn(len(extremes))]
+			r.Count("extreme_limit_cases", 1)
+			for pi, pk := range []string{"sizepacker", "simplepacker"} {
+				var ch [][]byte
+				var e error
+				if pi == 0 {
+					ch, e = sizeP.PackDataInChunks(in, lim)
+				} else {
+					ch, e = simpleP.PackDataInChunks(in, lim)
+				}
+				r.Eval(1)
+				if e != nil {
+					r.Violation(c.Idx, pk+"-error", fmt.Sprintf("%s limit=%d lens=%v: %v", pk, lim, lens(want), e), detail(map[string]interface{}{"extreme_limit": lim}))
+					continue
+				}
+				got, counts, uerr := unpack(ch)
+				if uerr != nil {
+					r.Violation(c.Idx, pk+"-chunk-undecodable", fmt.Sprintf("%s limit=%d: %v", pk, lim, uerr), detail(map[string]interface{}{"extreme_limit": lim}))
+				} else if !sameList(got, want) {
+					r.Violation(c.Idx, pk+"-"+diffKind(got, want), fmt.Sprintf("%s limit=%d input lens=%v -> elements per chunk=%v: unpacked %d of %d elements", pk, lim, lens(want), counts, len(got), len(want)), detail(map[string]interface{}{"extreme_limit": lim, "elements_per_chunk": counts}))
+				}
+			}
+			ps, e := split.SplitDataInChunks(in, lim)
+			r.Eval(1)
+			if e != nil {
+				r.Violation(c.Idx, "datasplit-error", fmt.Sprintf("DataSplit limit=%d n=%d: %v", lim, count, e), detail(map[string]interface{}{"element_limit": lim}))
+			} else {
+				var flat [][]byte
+				counts := []int{}
+				for _, p := range ps {
+					flat = append(flat, p...)
+					counts = append(counts, len(p))
+				}
+				if !sameList(flat, want) {
+					r.Violation(c.Idx, "datasplit-"+diffKind(flat, want), fmt.Sprintf("DataSplit limit=%d n=%d -> elements per chunk=%v: %d of %d elements", lim, count, counts, len(flat), len(want)), detail(map[string]interface{}{"element_limit": lim, "elements_per_chunk": counts}))
+				}
+			}
 		}
 
 		// the input handed to the packers must not have been modified
